@@ -16,6 +16,8 @@ inductive POp where
   | errbytes (fr : Framing) (tid : UInt16) (unit fc code : UInt8)
   | cls (fr : Framing) (tid : UInt16) (a : NewArgs) (k : Nat)
   | hdr (h body : Bytes)
+  /-- a byte-count response value with arbitrary (possibly inconsistent) fields, encoded by the library -/
+  | encresp (fc : UInt8) (fr : Framing) (tid : UInt16) (unit bl : UInt8) (d : Bytes)
 
 def parsePOp (ts : List String) : Option POp :=
   match ts with
@@ -34,6 +36,8 @@ def parsePOp (ts : List String) : Option POp :=
       pure (.cls fr tid a (← tokNat k))
     | _ => none
   | ["hdr", h, b] => do pure (.hdr (← unhex h) (← unhex b))
+  | ["encresp", fc, fr, tid, u, bl, d] => do
+      pure (.encresp (← tokU8 fc) (← tokFraming fr) (← tokU16 tid) (← tokU8 u) (← tokU8 bl) (← unhex d))
   | _ => none
 
 /-- the poisoned-spare twin of a parse operation is printed after " || " -/
@@ -71,6 +75,9 @@ def POp.modelOut : POp → String
     | .err e => e.str
     | .panic => "PANIC"
   | .hdr h body => hdrOut h body
+  | .encresp fc fr tid u bl d =>
+    let r := if fc == 1 || fc == 2 then Resp.bits fc u bl d else Resp.regs fc u bl d
+    hex (r.bytes fr tid)
 
 /-! ## known-finding regions (exact predicates; each is backed by a `_partial` theorem) -/
 
@@ -148,6 +155,11 @@ def judgeC03 (op : POp) (out : String) : Expect :=
     match unhex out with
     | some b => .pred (endsWithSpecCrc b) "RTU exception frame must end with its CRC"
     | none => .pred false "unreadable output"
+  | .encresp _ .rtu _ _ _ _ =>
+    -- whatever the fields of the response value: the frame the library emits ends with the CRC of what precedes it
+    match unhex out with
+    | some b => .pred (b.length ≥ 2 && endsWithSpecCrc b) "every RTU frame the library emits must end with the CRC of the preceding bytes"
+    | none => .noPanic
   | .parse e d _ =>
     if (e == "reqRC" || e == "respRC") && d.length ≥ 4 then
       let (a, b) := splitTwo out
@@ -320,7 +332,11 @@ def POp.judge (prop : String) (op : POp) (out : String) : Expect :=
   else if prop == "C03" then judgeC03 op out
   else if prop == "C09" then judgeC09 op out
   else if prop == "C10" then judgeC10 op out
-  else if prop == "C11" then judgeC11 op out
+  else if prop == "C11" then
+    -- "how the library itself packs coils for write requests": the FC15 frame on the wire (C01's oracle)
+    match op with
+    | .newreq _ _ _ => judgeC01 op out
+    | _ => judgeC11 op out
   else if prop == "C18" then judgeC18 op out
   else .free
 
